@@ -5,6 +5,7 @@ mod dump;
 pub mod jgen;
 pub mod rng;
 pub mod sx;
+mod c18_schema;
 
 /// One module per property: `run` (generate cases + implementation outcomes), `replay`
 /// (one recorded case), `dump` (compiled constants for the translator).
